@@ -11,7 +11,7 @@
    calculate_top_bottom_filler, int_scale) is NOT written here: it is regenerated from /repo on every
    run (Gen/geo_padfill_gen.v).  The size helpers of Pile (get_rows_sizes, get_item_rows) and Columns
    (column_widths, get_column_sizes) and Frame.frame_top_bottom are written by hand, line for line.
-   Sizes are (maxcol,) or (maxcol, maxrow); fixed widgets / 'pack' columns / 'clip' are not modelled.
+   Sizes are (maxcol,) or (maxcol, maxrow); fixed widgets / 'pack' columns / Padding 'clip' are not modelled.
    rows() is modelled without its focus argument (no modelled widget's rows depend on it).
    No proofs in this file. *)
 From Coq Require Import ZArith List Bool Lia.
@@ -171,10 +171,17 @@ Definition boxadapter_fits (h : Z) (s : size) : bool :=
 (* ------------------------------------------------------------------------------------------ *)
 (* Padding (padding.py); width 'given' or 'relative' (pack / clip not modelled)                *)
 (* ------------------------------------------------------------------------------------------ *)
+Definition is_pack (t : gwtype) : bool := match t with GPack => true | _ => false end.
+Definition is_given (t : gwtype) : bool := match t with GGiven => true | _ => false end.
 Record padopts := PadOpts { pa_at : gatype; pa_aamt : Z; pa_wt : gwtype; pa_wamt : Z; pa_minw : option Z; pa_left : Z; pa_right : Z }.
-(* Padding.padding_values, last branch (size given) *)
+(* Padding.padding_values (size given).  width 'pack': the wrapped widget is asked pack((maxwidth,))[0], which is
+   maxwidth for every modelled widget (Widget.pack returns the size it is given) *)
 Definition padding_values (o : padopts) (maxcol : Z) : Z * Z :=
-  calculate_left_right_padding maxcol (pa_at o) (pa_aamt o) (pa_wt o) (pa_wamt o) (pa_minw o) (pa_left o) (pa_right o).
+  if is_pack (pa_wt o) then
+    let maxwidth := Z.max (maxcol - pa_left o - pa_right o) (match pa_minw o with Some m => m | None => 0 end) in
+    calculate_left_right_padding maxcol (pa_at o) (pa_aamt o) GGiven maxwidth (pa_minw o) (pa_left o) (pa_right o)
+  else
+    calculate_left_right_padding maxcol (pa_at o) (pa_aamt o) (pa_wt o) (pa_wamt o) (pa_minw o) (pa_left o) (pa_right o).
 (* Padding.rows *)
 Definition padding_info (o : padopts) (ci : cinfo) : cinfo :=
   CInfo (i_sel ci) true true
@@ -210,8 +217,6 @@ Definition padding_fits (o : padopts) (s : size) : bool :=
 (* Filler (filler.py); height 'pack' (flow child), given or relative (box child)               *)
 (* ------------------------------------------------------------------------------------------ *)
 Record fillopts := FillOpts { fi_vt : gvtype; fi_vamt : Z; fi_ht : gwtype; fi_hamt : Z; fi_minh : option Z; fi_top : Z; fi_bottom : Z }.
-Definition is_pack (t : gwtype) : bool := match t with GPack => true | _ => false end.
-Definition is_given (t : gwtype) : bool := match t with GGiven => true | _ => false end.
 (* Filler.rows *)
 Definition filler_rows (o : fillopts) (ci : cinfo) (c : Z) : Z :=
   if is_pack (fi_ht o) then i_rows ci c + fi_top o + fi_bottom o
@@ -602,7 +607,8 @@ Definition frame_route (hdr ftr : option cinfo) (fpt : fpart) (s : size) (col ro
       let maxcol := fst s in
       let '((htrim, ftrim), _) := frame_top_bottom hdr ftr fpt maxcol maxrow in
       if row <? htrim then Some (Routed 1 (maxcol, None) col row (focus && fpart_eqb fpt FHeader))
-      else if maxrow - ftrim <=? row then Some (Routed 2 (maxcol, None) col (row - maxrow + ftrim) (focus && fpart_eqb fpt FFooter))
+      else if negb (ftrim =? 0) && (maxrow - ftrim <=? row)          (* if ftrim and row >= maxrow - ftrim *)
+      then Some (Routed 2 (maxcol, None) col (row - maxrow + ftrim) (focus && fpart_eqb fpt FFooter))
       else Some (Routed 0 (maxcol, Some (maxrow - htrim - ftrim)) col (row - htrim) (focus && fpart_eqb fpt FBody))
   end.
 Definition frame_fits (hdr ftr : option cinfo) (fpt : fpart) (s : size) : bool :=
